@@ -642,6 +642,8 @@ class Fixed(Family):
       <xs:element name="u" type="f:UP" minOccurs="0" maxOccurs="unbounded"/>
       <xs:element name="l" type="f:L" minOccurs="0"/>
       <xs:element name="df" type="xs:int" default="42" minOccurs="0"/>
+      <xs:element name="any" type="xs:anySimpleType" fixed="1.0" minOccurs="0" maxOccurs="unbounded"/>
+      <xs:element name="dec" type="xs:decimal" fixed="2.0" minOccurs="0" maxOccurs="unbounded"/>
      </xs:sequence>
      <xs:attribute name="aq" type="xs:QName" fixed="f:attr"/>
      <xs:attribute name="ad" type="xs:decimal" fixed="2.0"/>
@@ -691,6 +693,19 @@ class Fixed(Family):
                     at['au'] = rng.choice(good_u)
                 es.append({'kids': kids, 'at': at})
             out.append(Doc(f'fx-valid-{n}', self._doc(es), prefix_dep=True))
+        # a fixed value compared in the value space of the instance's xsi:type (typed and untyped occurrences mixed)
+        xsi = ' xmlns:xsi="http://www.w3.org/2001/XMLSchema-instance" xmlns:xs="http://www.w3.org/2001/XMLSchema"'
+
+        def typed(kids):
+            body = ''.join(f'<f:{t}{a}>{v}</f:{t}>' for t, a, v in kids)
+            return _decl() + f'<f:root xmlns:f="urn:fx"{xsi}>\n <f:e>{body}</f:e>\n</f:root>\n'
+        out.append(Doc('fx-any-untyped-same', typed([('any', '', '1.0')])))
+        out.append(Doc('fx-any-untyped-other-lexical', typed([('any', '', '1.00')]), 'fault:fixed'))
+        out.append(Doc('fx-any-typed-decimal', typed([('any', ' xsi:type="xs:decimal"', '1.00')])))
+        out.append(Doc('fx-any-typed-then-untyped', typed([('any', ' xsi:type="xs:decimal"', '1.000'), ('any', '', '1.0')])))
+        out.append(Doc('fx-any-typed-int-bad', typed([('any', ' xsi:type="xs:int"', '2')]), 'fault:fixed'))
+        out.append(Doc('fx-dec-typed-integer', typed([('dec', ' xsi:type="xs:integer"', '2'), ('dec', '', '2.00')]), 'fault:fixed'))
+        out.append(Doc('fx-dec-typed-integer-bad', typed([('dec', '', '2.0'), ('dec', ' xsi:type="xs:integer"', '3')]), 'fault:fixed'))
         out.append(Doc('fx-bad-fixed-q', self._doc([{'kids': [('q', 'f:other')]}]), 'fault:fixed', True))
         out.append(Doc('fx-bad-fixed-d', self._doc([{}, {'kids': [('d', '1.51')]}]), 'fault:fixed'))
         out.append(Doc('fx-bad-fixed-attr', self._doc([{'at': {'ad': '2.1'}}]), 'fault:fixed'))
@@ -1357,6 +1372,7 @@ class OnDemand(Family):
     EXT = 'http://www.w3.org/2001/04/xmlenc#'           # -> ext.xsd on the peer
     BROKEN = 'http://www.w3.org/2009/xmldsig11#'        # -> broken.xsd on the peer (cannot be built)
     GONE = 'http://www.w3.org/2009/xmlenc11#'           # -> a page the peer does not have
+    LATE = 'http://www.w3.org/2000/09/xmldsig#'         # -> late.xsd on the peer (fails in the last checks of the build)
     XLINK = 'http://www.w3.org/1999/xlink'
 
     def sources(self, version):
@@ -1369,6 +1385,16 @@ class OnDemand(Family):
     </xs:sequence><xs:anyAttribute namespace="##other" processContents="strict"/></xs:complexType></xs:element>
     <xs:any namespace="##other" processContents="lax" minOccurs="0" maxOccurs="unbounded"/>
   </xs:sequence><xs:anyAttribute namespace="##other" processContents="lax"/></xs:complexType>
+ </xs:element>
+ <xs:complexType name="base"><xs:sequence><xs:element name="k" type="xs:int"/></xs:sequence></xs:complexType>
+ <xs:complexType name="ext"><xs:complexContent><xs:extension base="o:base"><xs:sequence>
+   <xs:element name="x" type="xs:int"/></xs:sequence></xs:extension></xs:complexContent></xs:complexType>
+ <xs:element name="mix">
+  <xs:complexType><xs:sequence>
+    <xs:any namespace="##other" processContents="lax" minOccurs="0"/>
+    <xs:element name="rec" type="o:base" maxOccurs="unbounded"/>
+  </xs:sequence></xs:complexType>
+  <xs:key name="mk"><xs:selector xpath="o:rec"/><xs:field xpath="o:k"/></xs:key>
  </xs:element>
 </xs:schema>"""}
 
@@ -1385,6 +1411,14 @@ class OnDemand(Family):
  <xs:attribute name="flag" type="xs:boolean"/>
  <xs:simpleType name="Code"><xs:restriction base="xs:string"><xs:pattern value="[A-Z]{{2}}[0-9]"/></xs:restriction></xs:simpleType>
 </xs:schema>""".encode(),
+            # passes the meta-schema and the component builds, rejected by the final model checks (UPA violation)
+            self.PEER + 'late.xsd': f"""<xs:schema {XS} targetNamespace="{self.LATE}" xmlns:l="{self.LATE}"
+  elementFormDefault="qualified">
+ <xs:element name="sig"><xs:complexType><xs:sequence>
+   <xs:element name="a" type="xs:int" minOccurs="0"/><xs:element name="a" type="xs:string"/>
+  </xs:sequence></xs:complexType>
+  <xs:unique name="lu"><xs:selector xpath="l:a"/><xs:field xpath="."/></xs:unique></xs:element>
+</xs:schema>""".encode(),
             self.PEER + 'broken.xsd': f"""<xs:schema {XS} targetNamespace="{self.BROKEN}" xmlns:b="{self.BROKEN}">
  <xs:element name="e" type="b:Missing"/>
  <xs:element name="f" type="xs:int"/>
@@ -1395,14 +1429,22 @@ class OnDemand(Family):
         from xmlschema.locations import FALLBACK_LOCATIONS
         return {FALLBACK_LOCATIONS[self.EXT]: self.PEER + 'ext.xsd',
                 FALLBACK_LOCATIONS[self.BROKEN]: self.PEER + 'broken.xsd',
-                FALLBACK_LOCATIONS[self.GONE]: self.PEER + 'gone.xsd'}
+                FALLBACK_LOCATIONS[self.GONE]: self.PEER + 'gone.xsd',
+                FALLBACK_LOCATIONS[self.LATE]: self.PEER + 'late.xsd'}
 
     def assemble(self, directory, cls, build=True, order=None):
         import os
         return cls(os.path.join(directory, 'od.xsd'), build=build, uri_mapper=self.uri_mapper())
 
+    def _mix(self, foreign, recs):
+        ns = (f'xmlns:o="urn:od" xmlns:e="{self.EXT}" xmlns:l="{self.LATE}" xmlns:xlink="{self.XLINK}" '
+              'xmlns:xsi="http://www.w3.org/2001/XMLSchema-instance"')
+        body = ''.join(f'<o:rec{a}><o:k>{k}</o:k>' + ('<o:x>1</o:x>' if a else '') + '</o:rec>' for a, k in recs)
+        return _decl() + f'<o:mix {ns}>{foreign}{body}</o:mix>\n'
+
     def _doc(self, body='', rootattr='', items=(1,)):
         s = _decl() + (f'<o:root xmlns:o="urn:od" xmlns:e="{self.EXT}" xmlns:b="{self.BROKEN}" xmlns:g="{self.GONE}" '
+                       f'xmlns:l="{self.LATE}" xmlns:xsi="http://www.w3.org/2001/XMLSchema-instance" '
                        f'xmlns:xlink="{self.XLINK}"{rootattr}>\n')
         s += ''.join(f' <o:item>{i}</o:item>\n' for i in items)
         return s + body + '</o:root>\n'
@@ -1430,6 +1472,20 @@ class OnDemand(Family):
                                     rootattr=' xlink:type="simple"')),
             Doc('od-xlink-badtype', D(' <o:box xlink:type="bogus"/>\n'), 'fault:lexical'),
             Doc('od-xlink-lax-badtype', D(rootattr=' xlink:type="bogus"'), 'fault:lexical'),
+            # a typed record after foreign content: the namespace is loaded in the middle of the document
+            Doc('od-mix-plain', self._mix('', [('', 1), ('', 2)])),
+            Doc('od-mix-typed', self._mix('', [(' xsi:type="o:ext"', 1), ('', 2)]), prefix_dep=True),
+            Doc('od-mix-typed-dup', self._mix('', [(' xsi:type="o:ext"', 1), (' xsi:type="o:ext"', 1)]), 'fault:dup-key', True),
+            Doc('od-mix-foreign-then-typed', self._mix('<xlink:title>t</xlink:title>', [(' xsi:type="o:ext"', 1), ('', 2)]),
+                prefix_dep=True, tag='namespace-loaded-mid-document'),
+            Doc('od-mix-ext-then-typed', self._mix('<e:leaf>2020-02-02</e:leaf>', [(' xsi:type="o:ext"', 3)]),
+                prefix_dep=True, tag='namespace-loaded-mid-document'),
+            Doc('od-mix-late-then-typed', self._mix('<l:sig><l:a>x</l:a></l:sig>', [(' xsi:type="o:ext"', 3)]), prefix_dep=True),
+            Doc('od-valid-late-lax', D(' <l:sig><l:a>1</l:a></l:sig>\n')),
+            # a hint below the root for the namespace whose schema cannot be built (followed only with use_location_hints)
+            Doc('od-hint-broken', D(f' <o:box xsi:schemaLocation="{self.BROKEN} {self.PEER}broken.xsd"><b:f>1</b:f></o:box>\n'),
+                'fault:wildcard'),
+            Doc('od-hint-late', D(f' <l:sig xsi:schemaLocation="{self.LATE} {self.PEER}late.xsd"><l:a>1</l:a></l:sig>\n')),
             # the root itself belongs to an on-demand namespace: nothing matches it through a wildcard
             Doc('od-root-ext', f'<e:thing xmlns:e="{self.EXT}" code="zz"><e:n>1</e:n></e:thing>', 'fault:root'),
             Doc('od-valid-mixed-order', D(f' <o:box xlink:type="simple">{thing}</o:box>\n <g:x/>\n <b:f>z</b:f>\n {thing}\n')),
